@@ -1260,3 +1260,29 @@ VH_CMD(c47_fin)
     }
     return 0;
 }
+
+// Replay helper: `vh c47_combine --p a=<hex> --p b=<hex>` prints Combine(a,b) and Combine(b,a) with the field dumps.
+VH_CMD(c47_combine)
+{
+    ECC_Context ecc;
+    SelectParams(ChainType::REGTEST);
+    auto pa = Dec(vh::UnHex(args.gets("a", ""))), pb = Dec(vh::UnHex(args.gets("b", "")));
+    if (!pa || !pb) {
+        vh::log().line(vh::J().str("error", "a or b does not decode").done());
+        return 0;
+    }
+    auto ab = CombinePSBTs({*pa, *pb}), ba = CombinePSBTs({*pb, *pa});
+    vh::J j;
+    j.b("ab_ok", ab.has_value()).b("ba_ok", ba.has_value());
+    if (ab) {
+        std::set<std::string> f;
+        j.hex("ab", Enc(*ab)).str("ab_dump", DumpPsbt(*ab, f).Str(false, f));
+    }
+    if (ba) {
+        std::set<std::string> f;
+        j.hex("ba", Enc(*ba)).str("ba_dump", DumpPsbt(*ba, f).Str(false, f));
+    }
+    if (ab && ba) j.b("equal", Enc(*ab) == Enc(*ba));
+    vh::log().line(j.done());
+    return 0;
+}
